@@ -210,4 +210,12 @@ theorem completeOrder_rt (o : Order) (h : o.WF) : completeOrder o.baseProj (some
     by_cases ha : al.length > 0 <;> by_cases hn : nal.length > 0 <;>
       cases pub <;> simp [ha, hn, keys_nil_of_len, ht]
 
+
+theorem orderTlvVars_tlvProj (o : Order) : orderTlvVars o.tlvProj = orderTlvVars o := by
+  funext t
+  cases o with
+  | ask k a c => cases k; rfl
+  | bid k t' s tk u z => cases k; cases tk <;> rfl
+
+
 end Pool.C10
